@@ -577,6 +577,8 @@ def _check_operator(case, out, wlist):
     shifts = set()
     rows, cols = sizes[i], sizes[j]
     Y = sympy.zeros(rows, cols)
+    cell_shifts = {(r, c): set() for r in range(rows) for c in range(cols)}
+    neg = lambda s_: tuple(-x for x in s_)  # noqa: E731
     for r in range(rows):
         for c in range(cols):
             if diag_index:
@@ -587,15 +589,21 @@ def _check_operator(case, out, wlist):
                     cell = [w for w in cell if any(_shift(w, nm))]  # H_ii - H_ii vanishes on number-conserving terms
                     e = sum((_word_expr(w, ops, NumberOperator) for w in cell), sympy.Integer(0))
                     Y[r, r] = e + Dagger(e)
+                    for w in cell:
+                        cell_shifts[(r, r)] |= {_shift(w, nm), neg(_shift(w, nm))}
                 else:
                     Y[r, c] = W[r][c]
                     Y[c, r] = Dagger(W[r][c])
+                    for w in cell:
+                        cell_shifts[(r, c)].add(_shift(w, nm))
+                        cell_shifts[(c, r)].add(neg(_shift(w, nm)))
                 for w in cell:
                     shifts.add(_shift(w, nm))
             else:
                 Y[r, c] = W[r][c]
                 for w in case["Y"][r][c]:
                     shifts.add(_shift(w, nm))
+                    cell_shifts[(r, c)].add(_shift(w, nm))
     shifts |= {tuple(-x for x in s_) for s_ in shifts}
     if all(sympy.expand(y) == 0 for y in Y):
         out.labels.append("skipped:right-hand-side-vanishes")
@@ -620,13 +628,14 @@ def _check_operator(case, out, wlist):
         offs_j = case["offsets"][j] if not diag_index else offs_i
         # distinct entries need distinct offsets when the shift is zero
         for occ in itertools.product(*ranges):
-            for sh in shifts | {(0,) * nm}:
-                tgt = tuple(a + b for a, b in zip(occ, sh))
-                if any(t not in rg for t, rg in zip(tgt, ranges)):
-                    continue
-                for r in range(rows):
-                    for c in range(cols):
-                        if not any(sh) and (diag_index and r == c):
+            for r in range(rows):
+                for c in range(cols):
+                    # only the shifts that occur in entry (r, c) of the right-hand side need a non-zero denominator
+                    # there: two levels of a block may carry the SAME energy expression as long as the entry
+                    # coupling them has no number-conserving part
+                    for sh in cell_shifts[(r, c)]:
+                        tgt = tuple(a + b for a, b in zip(occ, sh))
+                        if any(t not in rg for t, rg in zip(tgt, ranges)):
                             continue
                         if abs(energy(tgt, offs_i[r] + 10 * i) - energy(occ, offs_j[c] + 10 * j)) < Fraction(1, 8):
                             ok = False
